@@ -29,6 +29,43 @@ type Type struct {
 	Fields []Field  // struct fields
 	Gender string   // struct: "m","f","n"
 	Alias  string   // non-empty: a declared type alias name for this type ("Wir nennen … auch …")
+	Def    string   // non-empty: a type definition ("Wir definieren … als …"): a new nominal type over this representation
+	DefG   string   // gender of the defined name
+}
+
+// DefOf returns the type definition `name` (gender g) over under. Values are those of under; the type
+// is a different one (conversions in both directions are explicit, a Variable holding one is not the other).
+func DefOf(name, g string, under *Type) *Type {
+	t := *under
+	t.Alias, t.Def, t.DefG = "", name, g
+	return &t
+}
+
+// Under returns the type a definition was made from (the type itself otherwise).
+func (t *Type) Under() *Type {
+	if t.Def == "" {
+		return t
+	}
+	u := *t
+	u.Def, u.DefG = "", ""
+	if u.K == KList {
+		return ListOf(t.Elem)
+	}
+	switch u.K {
+	case KZahl:
+		return Zahl
+	case KKomma:
+		return Komma
+	case KByte:
+		return Byte
+	case KBool:
+		return Bool
+	case KChar:
+		return Char
+	case KText:
+		return Text
+	}
+	return &u
 }
 
 type Field struct {
@@ -62,6 +99,9 @@ func (t *Type) Eq(o *Type) bool {
 	if t == o {
 		return true
 	}
+	if t.Def != o.Def {
+		return false
+	}
 	if t.K != o.K {
 		return false
 	}
@@ -80,6 +120,9 @@ func (t *Type) IsPrim() bool { return t.K <= KText }
 
 // Name as written in a type position ("Zahl", "Zahlen Liste", "Text Listen Liste"…).
 func (t *Type) String() string {
+	if t.Def != "" {
+		return t.Def
+	}
 	if t.Alias != "" {
 		return t.Alias
 	}
@@ -123,6 +166,9 @@ func (t *Type) String() string {
 
 // gender: m / f / n
 func (t *Type) G() string {
+	if t.Def != "" {
+		return t.DefG
+	}
 	switch t.K {
 	case KZahl, KKomma, KList, KAny:
 		return "f"
@@ -149,7 +195,7 @@ func (t *Type) Each() string {
 // accusative with indefinite article for return types / type checks: "eine Zahl", "einen Text", "ein X"
 func (t *Type) Akk() string {
 	s := t.String()
-	if t.K == KChar {
+	if t.K == KChar && t.Def == "" {
 		s = "Buchstaben"
 	}
 	return map[string]string{"m": "einen", "f": "eine", "n": "ein"}[t.G()] + " " + s
